@@ -135,6 +135,21 @@ class Parser(object):
                 line, pos
             )
             fieldnames.add(name)
+            self._parser_check(
+                not (member.size and member.kind == model.Kind.DYNAMIC),
+                "static/limited array '{}' of dynamic type".format(name),
+                line, pos
+            )
+            self._parser_check(
+                not (member.is_array and member.kind == model.Kind.UNLIMITED),
+                "array '{}' of type with unlimited field".format(name),
+                line, pos
+            )
+            self._parser_check(
+                not (member.optional and member.kind != model.Kind.FIXED),
+                "optional field '{}' of dynamic type".format(name),
+                line, pos
+            )
             if member.bound:
                 bound, _, __ = next(six.ifilter(lambda m: m[0].name == member.bound, members[:i]), (None, None, None))
                 if bound:
